@@ -153,8 +153,10 @@ func (self *VM) GetGlobals() map[string]value.Value {
 }
 
 func (self *VM) spawnCore() *Core {
+	defer vh("SpawnUnlock", -1, "")
 	self.Cores.Lock.Lock()
 	defer self.Cores.Lock.Unlock()
+	vh("SpawnLock", -1, "")
 
 	ch := make(chan *value.VmInterrupt)
 	core := NewCore(
@@ -170,6 +172,7 @@ func (self *VM) spawnCore() *Core {
 
 	self.Cores.Cores = append(self.Cores.Cores, core)
 	self.coreCnt++
+	vh("SpawnAppend", int64(core.Corenum), "")
 	return &core
 }
 
@@ -417,6 +420,7 @@ func (self *VM) spawnCoreInternal(
 		core.push(value.AsPtr(elem)) // Implement a deep copy? Or clone?
 	}
 
+	vh("SpawnGo", int64(core.Corenum), "")
 	go func() {
 		(*core).Run(toBeInvoked, debuggerOutput, debuggerResume)
 
@@ -442,10 +446,13 @@ func (self *VM) WaitNonConsuming() {
 // Removes the core with the given number from the core list.
 // The new list is computed while the write lock is held: cores which are spawned concurrently must not get lost.
 func (self *VM) removeCore(coreNum uint) {
+	defer vh("WaitNilUnlock", int64(coreNum), "")
 	self.Cores.Lock.Lock()
 	defer self.Cores.Lock.Unlock()
+	vh("WaitNilLock", int64(coreNum), "")
 
 	self.Cores.Cores = self.coresWithout(coreNum)
+	vh("WaitNilAssign", int64(coreNum), "")
 }
 
 func (self *VM) coresWithout(coreNum uint) []Core {
@@ -464,8 +471,10 @@ func (self *VM) coresWithout(coreNum uint) []Core {
 
 // Returns a snapshot of the core list.
 func (self *VM) coreSnapshot() []Core {
+	defer vh("WaitSnapUnlock", -1, "")
 	self.Cores.Lock.RLock()
 	defer self.Cores.Lock.RUnlock()
+	vh("WaitRLock", int64(len(self.Cores.Cores)), "")
 
 	return self.Cores.Cores
 }
@@ -479,6 +488,7 @@ func (self *VM) Wait() (coreNum uint, i *value.VmInterrupt) {
 		cores := self.coreSnapshot()
 
 		if len(cores) == 0 {
+			vh("WaitReturnNil", -1, "")
 			break
 		}
 
@@ -487,13 +497,17 @@ func (self *VM) Wait() (coreNum uint, i *value.VmInterrupt) {
 
 			select {
 			case i := <-core.SignalHandle:
+				vh("WaitRecv", int64(core.Corenum), vhKind(i))
 				if i == nil {
 					self.removeCore(core.Corenum)
 				} else {
 					self.Cores.Lock.Lock()
+					vh("WaitErrLock", int64(core.Corenum), "")
 					(*self.CancelFunc)()
 					self.Cores.Cores = self.coresWithout(core.Corenum)
+					vh("WaitErrCancel", int64(core.Corenum), "")
 					self.Cores.Lock.Unlock()
+					vh("WaitErrUnlock", int64(core.Corenum), "")
 
 					// Every remaining core observes the cancelation and hands over its interrupt:
 					// receive all of them so that no core stays blocked on its signal handle forever.
@@ -505,16 +519,20 @@ func (self *VM) Wait() (coreNum uint, i *value.VmInterrupt) {
 
 						for _, other := range remaining {
 							<-other.SignalHandle
+							vh("WaitDrainRecv", int64(other.Corenum), "")
 							self.removeCore(other.Corenum)
 						}
 					}
 
+					vh("WaitReturnErr", int64(core.Corenum), vhKind(i))
 					return core.Corenum, i
 				}
 			default:
+				vh("WaitPollEmpty", int64(core.Corenum), "")
 			}
 		}
 
+		vh("WaitSleep", -1, "")
 		time.Sleep(VMWaitIdleSleep)
 	}
 
